@@ -419,6 +419,7 @@ def run_order(tier, seed, log):
                 exp[c] += [canon.canon_line(l) for l in op.outs.get(c, [])]
         expected[name] = exp
     n_exact = 0
+    n_skipped = 0
     for workers in ([1, 4] if tier == "quick" else [1, 2, 4, 8]):
         ri = runner.sh([runner.HARNESS, "conc", path], timeout=3000, env={"VERIF_WORKERS": str(workers)})
         if ri.returncode != 0:
@@ -427,6 +428,10 @@ def run_order(tier, seed, log):
         for name, cfg, setup, burst in sc:
             im = impl.get(name)
             if im is None:
+                continue
+            if im["events"] or any("<<timeout>>" in l for ls in im["outs"].values() for l in ls):
+                # the harness itself was starved (loaded machine): the run says nothing; liveness is judged by the burst engine
+                n_skipped += 1
                 continue
             for c in (1, 2):
                 got = [canon.canon_line(l) for l in im["outs"].get(c, [])]
@@ -455,7 +460,7 @@ def run_order(tier, seed, log):
                                 "out_of_order": [l1[:120], l2[:120]],
                                 "observed": [l[:100] for _, l in seq][:40], "workers": workers, "scenario": name}))
                         break
-    cov = {"order_scenarios": len(sc), "order_lines_checked": n_lines, "order_transcripts_equal_to_model_in_order": n_exact,
+    cov = {"order_scenarios": len(sc), "order_lines_checked": n_lines, "order_transcripts_equal_to_model_in_order": n_exact, "order_runs_skipped_harness_starved": n_skipped,
            "order_rule": "real run_server; one connection pipelines 6-16 commands carrying sequence tokens (TOPIC, PING, PRIVMSG to itself / a peer "
                          "/ the channel, MODE, WHOIS, JOIN, KICK, INVITE, NOTICE); on its own socket and on the peer's socket the tokens must "
                          "appear in command order"}
